@@ -59,6 +59,10 @@ fn ins(k: u64, c: i64, ttl_ms: u64) -> Op {
     Op::Ins { k, c, ttl_ms }
 }
 
+fn ins_ns(k: u64, c: i64, ns: u64) -> Op {
+    Op::Ins { k, c, ttl_ms: TTL_NS_TAG | ns }
+}
+
 fn has_evict(t: &Trace) -> bool {
     t.ledger.iter().any(|e| e.kind == CbKind::Evict)
 }
@@ -255,7 +259,7 @@ pub fn o_hard_deadline(p: &Program, t: &Trace) -> Vec<Finding> {
             (Op::Ins { ttl_ms, .. }, Some(v)) if ttl_ms > 0 => (v, ttl_ms),
             _ => continue,
         };
-        let d = ttl_ms as u128 * 1_000_000;
+        let d = ttl_len_ns(ttl_ms);
         for l in t.recs.iter().filter(|l| l.call > w.call) {
             if let (Op::Get { .. } | Op::Mut { .. }, Res::Val(Some((x, rem)))) = (&l.op, &l.res) {
                 if *x != v {
@@ -440,12 +444,55 @@ pub fn c03(tier: &str, flavor: Flavor) -> Spec {
             }
         }
     }
+    // the TTL is a Duration, not a count of milliseconds: sub-millisecond TTLs on a fresh key and as
+    // the new deadline of a resident key without TTL; and the largest Duration there is
+    for ns in [1u64, 500_000, 999_999, 1_000_001] {
+        for cfg in [Cfg::default(), Cfg { cleanup_ms: 3_600_000, ..Cfg::default() }, Cfg { phase_ms: 999, ..Cfg::default() }] {
+            let mut ops = vec![ins_ns(1, 1, ns), ins(2, 1, 0), Op::Get { k: 1 }, Op::Ttl { k: 1 }];
+            if ns > 1 {
+                ops.push(Op::AdvNs { ns: ns - 1 });
+                ops.push(Op::Get { k: 1 });
+                ops.push(Op::Ttl { k: 1 });
+            }
+            ops.extend([Op::AdvNs { ns: 1 }, Op::Get { k: 1 }, Op::Ttl { k: 1 }, Op::Mut { k: 1 }, Op::Adv { ms: 50 }, Op::Get { k: 1 }, Op::Ttl { k: 1 }]);
+            ops.extend([ins_ns(2, 1, ns), Op::Get { k: 2 }, Op::AdvNs { ns }, Op::Get { k: 2 }, Op::Ttl { k: 2 }, Op::Mut { k: 2 }, Op::Adv { ms: 3000 }, Op::Get { k: 2 }, Op::Ttl { k: 2 }, Op::Get { k: 1 }]);
+            jobs.push(job(single(&cfg, flavor, settled(&ops)), &[0], "c03-sub-ms-ttl"));
+        }
+    }
+    for cfg in [Cfg::default(), Cfg { phase_ms: 500, cleanup_ms: 500, ..Cfg::default() }] {
+        let ops = vec![
+            // (at age 0 the remaining time of such an entry equals the "no expiry" answer: probed later)
+            ins(1, 1, TTL_MAX),
+            Op::Adv { ms: 1 },
+            Op::Get { k: 1 },
+            Op::Ttl { k: 1 },
+            Op::Adv { ms: 3000 },
+            Op::Get { k: 1 },
+            Op::Ttl { k: 1 },
+            ins(1, 1, TTL_MAX),
+            Op::Adv { ms: 1 },
+            Op::Get { k: 1 },
+            ins(2, 1, 0),
+            ins(2, 1, TTL_MAX),
+            Op::Adv { ms: 3000 },
+            Op::Get { k: 2 },
+            ins(1, 1, 500),
+            Op::Adv { ms: 600 },
+            Op::Get { k: 1 },
+            Op::Ttl { k: 1 },
+            Op::Adv { ms: 3000 },
+            Op::Get { k: 2 },
+            Op::Rem { k: 2 },
+            Op::Get { k: 2 },
+        ];
+        jobs.push(job(single(&cfg, flavor, settled(&ops)), &[0], "c03-max-ttl"));
+    }
     Spec {
         id: "C03",
         jobs,
         oracle: o_c03,
         interesting: |_, t| has_expiry(t) || t.recs.iter().any(|r| matches!(r.res, Res::Ttl(Some(x)) if x != u128::MAX)),
-        rule: "scripted time lines: TTL in {0.3,1,1.5,2.5 s,1 h} x clock phase {0,0.35,0.95 s} x cleanup interval {0.5,2 s} x neighbour key sharing the expiry second {absent,inserted,updated,removed} x optional re-insert (at 0.25..2 s, with TTL none/0.5 s/2 s, directly or after a remove of the key, and once more with a validator that refuses the re-insert: the first deadline stays); get + get_ttl + ValueRef::ttl probed every 250 ms and at deadline-1ns / deadline / deadline+1ns until deadline + 3 s, quiescence after every step, all select/scheduling choices at bound 0; exact comparison with reference deadlines; plus the tick-race family (two TTL residents, the clock jumps past their deadlines, the client re-inserts / removes without waiting for quiescence, bound 2): an entry re-inserted without TTL stays visible".into(),
+        rule: "scripted time lines: TTL in {0.3,1,1.5,2.5 s,1 h} x clock phase {0,0.35,0.95 s} x cleanup interval {0.5,2 s} x neighbour key sharing the expiry second {absent,inserted,updated,removed} x optional re-insert (at 0.25..2 s, with TTL none/0.5 s/2 s, directly or after a remove of the key, and once more with a validator that refuses the re-insert: the first deadline stays); get + get_ttl + ValueRef::ttl probed every 250 ms and at deadline-1ns / deadline / deadline+1ns until deadline + 3 s, quiescence after every step, all select/scheduling choices at bound 0; exact comparison with reference deadlines; plus the tick-race family (two TTL residents, the clock jumps past their deadlines, the client re-inserts / removes without waiting for quiescence, bound 2): an entry re-inserted without TTL stays visible; plus sub-millisecond TTLs (1 ns, 0.5 ms, 999999 ns, 1000001 ns; fresh key and as the new deadline of a resident key without TTL) probed at deadline-1ns / deadline / later, and a TTL of Duration::MAX (fresh, repeated, replacing no TTL, replaced by 0.5 s)".into(),
         assumptions: COMMON_ASSUMPTIONS.iter().map(|s| s.to_string()).collect(),
     }
 }
@@ -537,6 +584,23 @@ pub fn c05(tier: &str, flavor: Flavor) -> Spec {
             jobs.push(job(single(&vcfg, flavor, settled(&ops)), &[0], "c05-validator"));
         }
     }
+    // entries charged nothing or less than nothing (cost below zero; cost 0 priced by a Coster that
+    // answers 0 or -3): the sweep releases whatever charge there is, the key can be used again
+    for coster_base in [0i64, -3] {
+        let ocfg = Cfg { coster_base, cleanup_ms: 1000, ..Cfg::default() };
+        let oalpha = [ins(1, -5, 500), ins(1, 0, 500), ins(2, -1, 1500), ins(2, 1, 500), Op::Rem { k: 1 }, Op::Adv { ms: 1000 }];
+        for s in sequences(&oalpha, 3) {
+            if !s.iter().any(|o| matches!(o, Op::Ins { ttl_ms, .. } if *ttl_ms > 0)) {
+                continue;
+            }
+            let mut ops = s.clone();
+            for _ in 0..5 {
+                ops.push(Op::Adv { ms: 1000 });
+            }
+            ops.extend([ins(1, 1, 0), ins(2, 1, 0), Op::Get { k: 1 }, Op::Get { k: 2 }]);
+            jobs.push(job(single(&ocfg, flavor, settled(&ops)), &[0], "c05-odd-charges"));
+        }
+    }
     jobs.extend(tick_race_jobs(flavor, quick, "c05-tick-race"));
     // a lookup guard (on the expired entry itself or on a neighbour in the same shard) held while
     // the sweep for that entry is due: the sweep waits for the guard, the entry is reclaimed
@@ -580,7 +644,7 @@ pub fn c05(tier: &str, flavor: Flavor) -> Spec {
         oracle: o_c05,
         interesting: |_, t| has_expiry(t),
         rule: format!(
-            "every history of depth {} over {} symbols (I(k,ttl) k in 1..2, R(k), I(1,no ttl), A(0.25s), A(1s)) containing a TTL insert, x {} (cleanup interval incl. the 2 s default, clock phase) settings, followed by 7 x 1 s of idle time; quiescence after every step (the processor is never starved), all choices at bound 0; oracle: physically reclaimed, un-charged and handed to on_evict exactly once with the charged cost by deadline + 1 s + interval; never evicted before the deadline; non-trivial = an expiry was reclaimed",
+            "every history of depth {} over {} symbols (I(k,ttl) k in 1..2, R(k), I(1,no ttl), A(0.25s), A(1s)) containing a TTL insert, x {} (cleanup interval incl. the 2 s default, clock phase) settings, followed by 7 x 1 s of idle time; quiescence after every step (the processor is never starved), all choices at bound 0; oracle: physically reclaimed, un-charged and handed to on_evict exactly once with the charged cost by deadline + 1 s + interval; never evicted before the deadline; plus the odd-charges family (costs -5 / -1 / 0 with a Coster answering 0 or -3, depth 3, both keys re-inserted afterwards) and the families named in DESIGN 11.5; non-trivial = an expiry was reclaimed",
             depth,
             alpha.len(),
             configs.len()
@@ -688,13 +752,17 @@ pub fn c09(tier: &str, flavor: Flavor) -> Spec {
             }
         }
     }
+    // conditional writes on a key whose TTL has run out while the sweep has not collected it yet
+    for validator in [ValidatorMode::Never, ValidatorMode::Newer, ValidatorMode::Always] {
+        jobs.extend(dead_entry_jobs(flavor, if quick { 2 } else { 3 }, validator, true, "c09-dead-entry"));
+    }
     Spec {
         id: "C09",
         jobs,
         oracle: o_c09_all,
         interesting: |_, t| t.validator_calls.iter().any(|c| !c.2) || t.recs.iter().any(|r| matches!(r.op, Op::Pres { .. }) && r.res == Res::Bool(true)),
         rule: format!(
-            "validators {{always, never, newer-only}} x every history of depth {} over 13 symbols (I(k), I(k,2s), P(k), R(k), G(k), T(k) for k in 1..2, A(1s)), quiescence after every step, bound 0, exact reference map + snapshot identity across vetoes; plus every unsettled history over {{I(1),P(1),R(1),S}} (insert_if_present racing buffered work for the same key) and over {{I(1),I(2),P(1),G(1),S}} on a cache of capacity 1 (buffered work evicts the key before the queued item is handled) at preemption bound 1: a vetoed or refused write never becomes visible or resident; non-trivial = a veto happened or insert_if_present updated",
+            "validators {{always, never, newer-only}} x every history of depth {} over 13 symbols (I(k), I(k,2s), P(k), R(k), G(k), T(k) for k in 1..2, A(1s)), quiescence after every step, bound 0, exact reference map + snapshot identity across vetoes; plus every unsettled history over {{I(1),P(1),R(1),S}} (insert_if_present racing buffered work for the same key) and over {{I(1),I(2),P(1),G(1),S}} on a cache of capacity 1 (buffered work evicts the key before the queued item is handled) at preemption bound 1: a vetoed or refused write never becomes visible or resident; plus the dead-entry family (key 1 resident with a TTL that has run out, the sweep an hour or a second away; every body of <= 2/3 operations over G/M/T/I/I(ttl)/P/R on it, three validators, quiescence after every step); non-trivial = a veto happened or insert_if_present updated",
             depth
         ),
         assumptions: COMMON_ASSUMPTIONS.iter().map(|s| s.to_string()).collect(),
@@ -759,15 +827,41 @@ fn o_c09_unsettled(p: &Program, t: &Trace) -> Vec<Finding> {
     out.extend(o_agree(p, t));
     out
 }
+/// insert_if_present only ever acts as an update of an entry that is there, and an update is
+/// put to the UpdateValidator first: a value written by insert_if_present that a lookup returns
+/// or a snapshot shows was accepted by the validator against the entry it replaced (whatever
+/// the state of that entry, also when its TTL had run out and the sweep had not come yet).
+fn o_present_validated(_p: &Program, t: &Trace) -> Vec<Finding> {
+    let mut out = Vec::new();
+    for w in t.recs.iter().filter(|r| matches!(r.op, Op::Pres { .. })) {
+        let v = match w.wrote {
+            Some(v) => v,
+            None => continue,
+        };
+        if t.validator_calls.iter().any(|(_, c, ok)| *c == v && *ok) {
+            continue;
+        }
+        let seen = t.recs.iter().find(|l| matches!(&l.res, Res::Val(Some((x, _))) if *x == v)).map(|l| l.op.short()).or_else(|| t.snaps.iter().find(|s| s.entries.iter().any(|e| e.value == v)).map(|_| "a snapshot".to_string()));
+        if let Some(by) = seen {
+            out.push(("present-value-without-validation".to_string(), format!("{} wrote {:?}, which {} shows, but the validator never accepted it as a replacement", w.op.short(), v, by)));
+            return out;
+        }
+    }
+    out
+}
+
 fn o_c09_all(p: &Program, t: &Trace) -> Vec<Finding> {
+    let mut v = o_present_validated(p, t);
     if p.threads.len() > 1 {
-        return o_newer_monotone(p, t);
+        v.extend(o_newer_monotone(p, t));
+        return v;
     }
     if is_settled(p) {
-        o_c09(p, t)
+        v.extend(o_c09(p, t));
     } else {
-        o_c09_unsettled(p, t)
+        v.extend(o_c09_unsettled(p, t));
     }
+    v
 }
 pub fn is_settled(p: &Program) -> bool {
     p.threads.len() == 1 && {
@@ -1206,6 +1300,8 @@ pub fn c08(tier: &str, flavor: Flavor) -> Spec {
         }
     }
     jobs.extend(tick_race_jobs(flavor, quick, "c08-tick-race"));
+    jobs.extend(dead_entry_jobs(flavor, if quick { 2 } else { 3 }, ValidatorMode::Always, false, "c08-dead-entry"));
+    jobs.extend(dead_entry_jobs(flavor, 2, ValidatorMode::Never, false, "c08-dead-entry"));
     Spec {
         id: "C08",
         jobs,
@@ -1479,6 +1575,26 @@ pub fn c10(tier: &str, flavor: Flavor) -> Spec {
     for b in [vec![Op::GetYield { k: 1 }], vec![Op::GetYield { k: 1 }, Op::GetYield { k: 1 }], vec![Op::Mut { k: 1 }, Op::GetYield { k: 1 }]] {
         let a = vec![ins(257, 1, 0), Op::Wait, Op::Get { k: 257 }, Op::Get { k: 1 }];
         jobs.push(job(conc(&Cfg::default(), flavor, &[ins(1, 1, 0)], vec![a, b.clone()]), &[2], "c10-shard-held"));
+    }
+    // inserts with a TTL before the barrier: the largest Duration there is; and a key re-inserted
+    // after its earlier TTL ran out but before the sweep collected it (the dead entry and its charge
+    // are still there when the new item is applied)
+    for cfg in [Cfg::default(), Cfg { cleanup_ms: 3_600_000, ..Cfg::default() }] {
+        for h in [
+            vec![ins(1, 1, TTL_MAX)],
+            vec![ins(1, 1, 0), ins(1, 1, TTL_MAX)],
+            vec![ins(1, 1, TTL_MAX), ins(2, 1, 0), Op::Rem { k: 1 }],
+            vec![ins(1, 1, 300), Op::Adv { ms: 500 }, ins(1, 1, 0)],
+            vec![ins(1, 1, 300), Op::Adv { ms: 500 }, ins(1, 1, 1000)],
+            vec![ins(1, 1, 300), Op::Settle, Op::Adv { ms: 500 }, ins(1, 1, 0)],
+            vec![ins(1, 1, 300), Op::Settle, Op::Adv { ms: 500 }, ins(1, 1, 1000), ins(2, 1, 0)],
+            vec![ins(1, 1, 300), Op::Settle, Op::Adv { ms: 1500 }, ins(1, 1, 0)],
+            vec![ins(1, 1, 300), Op::Settle, Op::Adv { ms: 500 }, Op::Rem { k: 1 }, ins(1, 1, 0)],
+        ] {
+            let mut a = h.clone();
+            a.extend([Op::Wait, Op::Get { k: 1 }, Op::Get { k: 2 }, Op::Snap]);
+            jobs.push(job(conc(&cfg, flavor, &[], vec![a]), &[2], "c10-ttl"));
+        }
     }
     // waits with nothing pending, racing close/clear directly
     for threads in [
@@ -1935,6 +2051,54 @@ pub fn c07_cache(tier: &str, flavor: Flavor) -> Spec {
 }
 
 // ------------------------------------------------------------------------------------------------
+// C13 at the cache level: clear() zeroes the estimator whatever the cache holds at that moment
+
+/// At the first quiescent point after a clear() of client 0 with nothing issued in between, every
+/// program key estimates zero; and from there on a key never estimates more than the number of
+/// lookups issued for it since that clear (1000 counters, at most three keys: no collisions).
+fn o_c13_cache(p: &Program, t: &Trace) -> Vec<Finding> {
+    let mut out = Vec::new();
+    let mut recs: Vec<&Rec> = t.recs.iter().filter(|r| r.th == 0).collect();
+    recs.sort_by_key(|r| r.idx);
+    for c in recs.iter().filter(|r| r.op == Op::Clear && r.res == Res::Unit) {
+        let next_clear = recs.iter().filter(|r| r.op == Op::Clear && r.call > c.call).map(|r| r.call).min().unwrap_or(u64::MAX);
+        for s in t.snaps.iter().filter(|s| s.quiescent && s.at > c.ret && s.at < next_clear) {
+            for (idx, est) in &s.estimates {
+                let looked = recs.iter().filter(|r| r.call > c.ret && r.call < s.at && is_lookup(r) && r.op.key().map(|k| p.cfg.build_key(k).0) == Some(*idx)).count() as i64;
+                if *est > looked {
+                    out.push(("estimate-survived-clear".to_string(), format!("key {} estimates {} at a quiescent point after clear() although only {} lookup(s) of it were issued since the clear", idx, est, looked)));
+                    return out;
+                }
+            }
+        }
+    }
+    out
+}
+
+pub fn c13_cache(tier: &str, flavor: Flavor) -> Spec {
+    let quick = tier == "quick";
+    let cfg = Cfg { num_counters: 1000, buffer_items: 1, max_cost: 100, ..Cfg::default() };
+    let alpha = [Op::Get { k: 1 }, Op::Get { k: 2 }, Op::Mut { k: 1 }, ins(1, 1, 0), ins(1, 1, 500), Op::Rem { k: 1 }, Op::Clear, Op::Adv { ms: 2500 }];
+    let mut jobs = Vec::new();
+    for s in sequences(&alpha, if quick { 4 } else { 5 }) {
+        if !s.iter().any(|o| is_lookup_op(o)) {
+            continue;
+        }
+        let mut ops = s.clone();
+        ops.extend([Op::Clear, Op::Settle, Op::Get { k: 1 }, Op::Get { k: 3 }, Op::Get { k: 1 }]);
+        jobs.push(job(single(&cfg, flavor, settled(&ops)), &[0], "c13-cache-clear"));
+    }
+    Spec {
+        id: "C13",
+        jobs,
+        oracle: o_c13_cache,
+        interesting: |_, t| t.snaps.iter().any(|s| s.estimates.iter().any(|e| e.1 > 0)),
+        rule: format!("cache level (1000 counters, buffer_items 1: every lookup reaches the estimator): every settled history of depth {} over {{G(1), G(2), M(1), I(1), I(1,0.5s), R(1), X, A(2.5s)}} containing a lookup, then clear() - on a cache that holds entries, holds none because they were removed / expired, or never held any - and three more lookups; at every quiescent point after a clear() no key estimates more than the lookups issued for it since; non-trivial = some estimate was positive", if quick { 4 } else { 5 }),
+        assumptions: all_std(),
+    }
+}
+
+// ------------------------------------------------------------------------------------------------
 // C19: what a closed cache still shows (len, get_ttl, metrics, entries) is the same on both flavours
 
 pub fn c19_close_corpus(_tier: &str, flavor: Flavor) -> Spec {
@@ -1974,6 +2138,33 @@ fn tick_race_jobs(flavor: Flavor, quick: bool, tag: &str) -> Vec<Job> {
         let mut p = single(&cfg, flavor, ops);
         p.setup = vec![ins(1, 1, 1000), ins(2, 1, 1000)];
         jobs.push(job(p, &[2], tag));
+    }
+    jobs
+}
+
+/// The dead-entry family: key 1 is resident with a TTL that has run out, and the sweep that would
+/// collect it is an hour away (the window between expiry and sweep, stretched); key 2 is resident
+/// without TTL.  The client then runs every body of <= `len` operations over lookups, get_mut,
+/// get_ttl, inserts (no TTL / 1 s TTL), insert_if_present and remove on the dead key, reaches
+/// quiescence and looks both keys up.  `all_settled`: quiescence after every operation (the
+/// sequential reference models apply), else only where the body says so (bound 1).
+fn dead_entry_jobs(flavor: Flavor, len: usize, validator: ValidatorMode, all_settled: bool, tag: &str) -> Vec<Job> {
+    let mut jobs = Vec::new();
+    for cleanup_ms in [3_600_000u64, 1000] {
+        let cfg = Cfg { max_cost: 100, cleanup_ms, validator, ..Cfg::default() };
+        let alpha = [Op::Get { k: 1 }, Op::Mut { k: 1 }, Op::Ttl { k: 1 }, ins(1, 1, 0), ins(1, 1, 1000), Op::Pres { k: 1, c: 1 }, Op::Rem { k: 1 }, ins(2, 1, 0)];
+        for body in bodies(&alpha, len) {
+            let mut ops = vec![Op::Adv { ms: 500 }];
+            ops.extend(body.iter().copied());
+            ops.extend([Op::Settle, Op::Get { k: 1 }, Op::Get { k: 2 }, Op::Settle]);
+            if cleanup_ms == 1000 {
+                // the sweep comes round eventually
+                ops.extend([Op::Adv { ms: 1000 }, Op::Settle, Op::Adv { ms: 1000 }, Op::Settle, Op::Get { k: 1 }, Op::Get { k: 2 }, Op::Settle]);
+            }
+            let mut pr = single(&cfg, flavor, if all_settled { settled(&ops) } else { ops });
+            pr.setup = vec![ins(1, 1, 300), ins(2, 1, 0)];
+            jobs.push(job(pr, if all_settled { &[0] } else { &[1] }, tag));
+        }
     }
     jobs
 }
@@ -2056,6 +2247,22 @@ pub fn c18(tier: &str, flavor: Flavor) -> Spec {
     for ops in expiring_collide_histories(quick) {
         jobs.push(job(single(&cfg, flavor, settled(&ops)), &[0], "c18-expiring"));
     }
+    // the owner of the slot carries the conflict hash 0 (what a key builder that provides no
+    // conflict hash yields, and what TransparentKeyBuilder yields for every key), the other keys
+    // of the slot a non-zero one: they still miss, are refused and remove nothing.  Index = k % 8,
+    // conflict = k / 8: key 5 -> (5, 0), key 13 -> (5, 1), key 21 -> (5, 2).  The zero-conflict
+    // key stays the owner throughout (a lookup WITH conflict hash 0 is documented to skip the check).
+    {
+        let zcfg = Cfg { keymode: KeyMode::CollideDiv { m: 8 }, ..Cfg::default() };
+        let za = [ins(13, 1, 0), Op::Pres { k: 13, c: 1 }, Op::Rem { k: 13 }, Op::Get { k: 13 }, Op::Mut { k: 13 }, Op::Ttl { k: 13 }, Op::Mut { k: 21 }, Op::Get { k: 5 }, Op::Mut { k: 5 }, ins(5, 1, 0), ins(5, 1, 5000)];
+        for s in sequences(&za, if quick { 3 } else { 4 }) {
+            let mut ops = s.clone();
+            ops.extend([Op::Get { k: 5 }, Op::Get { k: 13 }, Op::Ttl { k: 5 }]);
+            let mut pr = single(&zcfg, flavor, settled(&ops));
+            pr.setup = vec![ins(5, 1, 0)];
+            jobs.push(job(pr, &[0], "c18-zero-conflict-owner"));
+        }
+    }
     Spec {
         id: "C18",
         jobs,
@@ -2066,7 +2273,7 @@ pub fn c18(tier: &str, flavor: Flavor) -> Spec {
             ks.len() > 1
         },
         rule: format!(
-            "cache with a colliding key builder (index = k % 2, conflict = k + 1: keys 2 and 4 share index 0, key 3 has index 1): every settled history of depth {} over 14 symbols (I/G/R on 2, 4, 3; M and T on 2 and 4; I(4,1s)) followed by lookups of both colliding keys; plus settled histories over {{I(2,500ms), I(4), I(4,500ms), I(2), A(600ms), A(1s), G(2), G(4), M(2), T(2), R(2)}} (an expired, not yet swept entry still owns its slot); oracle: slot model (an operation on one key never returns, overwrites or removes the value of the other; deadlines tracked, an expired owner leaves the slot undetermined until something is observed) + value provenance; non-trivial = both colliding keys were written. Key-builder determinism / identity / injectivity is enumerated separately (all u8/i8/u16/i16/bool values, boundary sets for wider types, 4000 strings in String/&str form)",
+            "cache with a colliding key builder (index = k % 2, conflict = k + 1: keys 2 and 4 share index 0, key 3 has index 1): every settled history of depth {} over 14 symbols (I/G/R on 2, 4, 3; M and T on 2 and 4; I(4,1s)) followed by lookups of both colliding keys; plus settled histories over {{I(2,500ms), I(4), I(4,500ms), I(2), A(600ms), A(1s), G(2), G(4), M(2), T(2), R(2)}} (an expired, not yet swept entry still owns its slot); oracle: slot model (an operation on one key never returns, overwrites or removes the value of the other; deadlines tracked, an expired owner leaves the slot undetermined until something is observed) + value provenance; plus a slot whose owner carries the conflict hash 0 (index = k % 8, conflict = k / 8; keys 5, 13, 21) with every settled history of depth 3/4 over I/P/R/G/M/T on the non-zero-conflict keys and G/M/I on the owner; non-trivial = both colliding keys were written. Key-builder determinism / identity / injectivity is enumerated separately (all u8/i8/u16/i16/bool values, boundary sets for wider types, 4000 strings in String/&str form)",
             if quick { 4 } else { 5 }
         ),
         assumptions: all_std(),
@@ -2283,10 +2490,30 @@ pub fn c20(tier: &str, flavor: Flavor) -> Spec {
             }
         }
     }
-    // zero parameters are rejected
-    for (nc, mc, bs) in [(0usize, 10i64, 8usize), (10, 0, 8), (10, 10, 0)] {
-        let cfg = Cfg { num_counters: nc, max_cost: mc, buffer_size: bs, ..Cfg::default() };
-        jobs.push(job(single(&cfg, flavor, vec![ins(1, 1, 0), Op::Settle]), &[0], "c20-zero"));
+    // zero parameters are rejected, in whatever order the builder was fed
+    for order in [0u8, 1, 2] {
+        for (nc, mc, bs) in [(0usize, 10i64, 8usize), (10, 0, 8), (10, 10, 0)] {
+            for buffer_items in [0usize, 1, 64] {
+                let cfg = Cfg { num_counters: nc, max_cost: mc, buffer_size: bs, buffer_items, builder_order: order, ..Cfg::default() };
+                jobs.push(job(single(&cfg, flavor, vec![ins(1, 1, 0), Op::Settle]), &[0], "c20-zero"));
+            }
+        }
+    }
+    // the order of the builder calls does not matter: the other two orders (flags after the
+    // type-changing setters, interleaved) on the corners of the product
+    for order in [1u8, 2] {
+        for &nc in &[1usize, 64] {
+            for max_cost in [1i64, 100] {
+                for (buffer_size, buffer_items) in [(1usize, 0usize), (1, 64), (8, 0), (8, 1), (2, 2)] {
+                    for (metrics, ignore) in [(false, true), (true, false), (true, true), (false, false)] {
+                        for cleanup_ms in [1u64, 2000] {
+                            let cfg = Cfg { num_counters: nc, max_cost, buffer_size, buffer_items, metrics, ignore_internal_cost: ignore, cleanup_ms, builder_order: order, ..Cfg::default() };
+                            jobs.push(job(single(&cfg, flavor, workload.clone()), &[0], "c20-builder-order"));
+                        }
+                    }
+                }
+            }
+        }
     }
     Spec {
         id: "C20",
@@ -2294,7 +2521,7 @@ pub fn c20(tier: &str, flavor: Flavor) -> Spec {
         oracle: o_c20,
         interesting: |_, t| t.ledger.iter().any(|e| e.kind != CbKind::Exit),
         rule: format!(
-            "full product of num_counters {{{}}} x max_cost {{-1,1,5,100}} x buffer_size {{1,2,8}} x buffer_items {{0,1,2,64}} x metrics x ignore_internal_cost x cleanup {{1 ms, 0.5 s, 2 s}}, plus cleanup intervals {{1 ns, 1 us, 200 us, 999999 ns}} x num_counters {{1,64}} x max_cost {{1,100}} x buffer_size {{1,8}} x metrics, each running one fixed 33-operation workload (inserts incl. coster / oversize cost, lookups, get_mut, a ValueRef held past the expiry of its entry, update, remove, TTL expiry with ticks, insert_if_present, update_max_cost, evictions, clear, wait, a final insert) under every scheduling/select choice at preemption bound 0; oracle: no panic in any task, no worker terminated, wait() Ok and the final insert processed on the idle cache, store/policy agreement, policy invariants; zero num_counters / max_cost / buffer_size rejected with the matching error; non-trivial = an evict / reject callback fired",
+            "full product of num_counters {{{}}} x max_cost {{-1,1,5,100}} x buffer_size {{1,2,8}} x buffer_items {{0,1,2,64}} x metrics x ignore_internal_cost x cleanup {{1 ms, 0.5 s, 2 s}}, plus cleanup intervals {{1 ns, 1 us, 200 us, 999999 ns}} x num_counters {{1,64}} x max_cost {{1,100}} x buffer_size {{1,8}} x metrics, each running one fixed 33-operation workload (inserts incl. coster / oversize cost, lookups, get_mut, a ValueRef held past the expiry of its entry, update, remove, TTL expiry with ticks, insert_if_present, update_max_cost, evictions, clear, wait, a final insert) under every scheduling/select choice at preemption bound 0; oracle: no panic in any task, no worker terminated, wait() Ok and the final insert processed on the idle cache, store/policy agreement, policy invariants; zero num_counters / max_cost / buffer_size rejected with the matching error under each of three builder call orders (flags first = the default of every family, flags last, interleaved), the two other orders also on the corners of the product; non-trivial = an evict / reject callback fired",
             if quick { "1..8, 63..70" } else { "1..70" }
         ),
         assumptions: all_std(),
@@ -2304,8 +2531,51 @@ pub fn c20(tier: &str, flavor: Flavor) -> Spec {
 // ------------------------------------------------------------------------------------------------
 // C15
 
+/// Settled single-client histories with clear() in them.  clear() wipes the estimator and the
+/// counters, it is not one of the two events that lose lookups: the lookups sitting in a partly
+/// filled ring when clear() is called are flushed with the batch they belong to, which is
+/// accounted (after the clear) as kept, and they count towards their keys' estimates.
+fn o_c15_clear(p: &Program, t: &Trace) -> Vec<Finding> {
+    let mut out = Vec::new();
+    let fin = match t.snaps.iter().rev().find(|s| s.quiescent) {
+        Some(s) => s,
+        None => return out,
+    };
+    let m = match &fin.metrics {
+        Some(m) => m,
+        None => return out,
+    };
+    let size = p.cfg.buffer_items.max(1);
+    let mut looks: Vec<&Rec> = t.recs.iter().filter(|r| matches!(r.op, Op::Get { .. } | Op::Mut { .. })).collect();
+    looks.sort_by_key(|r| r.call);
+    let c = match t.recs.iter().filter(|r| r.op == Op::Clear && r.res == Res::Unit).map(|r| r.call).max() {
+        Some(c) => c,
+        None => return out,
+    };
+    let pre = looks.iter().filter(|r| r.call < c).count();
+    let (from, to) = ((pre / size) * size, (looks.len() / size) * size);
+    if (m.gets_kept + m.gets_dropped) as usize != to - from || m.gets_dropped != 0 {
+        out.push(("gets-accounting".to_string(), format!("buffer_items {}: {} lookups before the last clear(), {} after it: the batches flushed since hold {} lookups but gets_kept {} + gets_dropped {}", p.cfg.buffer_items, pre, looks.len() - pre, to - from, m.gets_kept, m.gets_dropped)));
+        return out;
+    }
+    let mut per: BTreeMap<u64, usize> = BTreeMap::new();
+    for r in &looks[from..to] {
+        *per.entry(p.cfg.build_key(r.op.key().unwrap()).0).or_insert(0) += 1;
+    }
+    for (idx, n) in per {
+        let est = fin.estimates.iter().find(|e| e.0 == idx).map(|e| e.1).unwrap_or(-1);
+        if est < n.min(16) as i64 {
+            out.push(("lookups-not-recorded".to_string(), format!("key {} was looked up {} times in the batches flushed since the last clear() but its estimate is {}", idx, n, est)));
+        }
+    }
+    out
+}
+
 fn o_c15(p: &Program, t: &Trace) -> Vec<Finding> {
     let mut out = Vec::new();
+    if p.threads.iter().flatten().any(|o| *o == Op::Clear) {
+        return if p.threads.len() == 1 && is_settled(p) { o_c15_clear(p, t) } else { out };
+    }
     let fin = match t.snaps.iter().rev().find(|s| s.quiescent) {
         Some(s) => s,
         None => return out,
@@ -2434,13 +2704,26 @@ pub fn c15(tier: &str, flavor: Flavor) -> Spec {
             }
         }
     }
+    // clear() between the lookups: the lookups of a partly filled ring are not lost by it
+    for capa in [2usize, 3] {
+        let cfg = Cfg { buffer_items: capa, metrics: true, num_counters: 1000, ..Cfg::default() };
+        let xa = [Op::Get { k: 1 }, Op::Get { k: 2 }, Op::Mut { k: 1 }, Op::Clear, ins(1, 1, 0)];
+        for s in sequences(&xa, if quick { 5 } else { 6 }) {
+            if !s.contains(&Op::Clear) || !s.iter().any(is_lookup_op) {
+                continue;
+            }
+            let mut pr = single(&cfg, flavor, settled(&s));
+            pr.setup = vec![ins(1, 1, 0)];
+            jobs.push(job(pr, &[0], "c15-clear"));
+        }
+    }
     Spec {
         id: "C15",
         jobs,
         oracle: o_c15,
         interesting: |_, t| t.snaps.last().and_then(|s| s.metrics.as_ref()).map(|m| m.gets_kept > 0).unwrap_or(false),
         rule: format!(
-            "buffer_items in 0..=3, num_counters 1000, metrics on, key 1 resident / key 2 absent: every lookup sequence of length {} over {{G(1), G(2), M(1), M(2)}} (hits and misses through get and get_mut) (a) with a settle after every lookup, bound 0 and (b) unsettled with the policy worker as a scheduled task at preemption bound 2 (the worker is interrupted between taking a batch and applying it); bursts of 4*b+1 and 6*b lookups (overflow of the 3-batch queue) at bound 2; two clients x <= 2 lookups sharing the ring at bound 2; lookups of one client racing admissions / updates / removes / update_max_cost of another (the policy lock is busy when the worker gets the batch) at bound 2. Oracle at the final quiescent point: gets_kept + gets_dropped == lookups flushed in whole batches, drops only beyond 3 undelivered batches and never with prompt draining, estimate(k) >= min(16, lookups of k in kept batches); non-trivial = a batch was kept",
+            "buffer_items in 0..=3, num_counters 1000, metrics on, key 1 resident / key 2 absent: every lookup sequence of length {} over {{G(1), G(2), M(1), M(2)}} (hits and misses through get and get_mut) (a) with a settle after every lookup, bound 0 and (b) unsettled with the policy worker as a scheduled task at preemption bound 2 (the worker is interrupted between taking a batch and applying it); bursts of 4*b+1 and 6*b lookups (overflow of the 3-batch queue) at bound 2; two clients x <= 2 lookups sharing the ring at bound 2; lookups of one client racing admissions / updates / removes / update_max_cost of another (the policy lock is busy when the worker gets the batch) at bound 2. Oracle at the final quiescent point: gets_kept + gets_dropped == lookups flushed in whole batches, drops only beyond 3 undelivered batches and never with prompt draining, estimate(k) >= min(16, lookups of k in kept batches); plus settled histories of depth 5/6 over {{G(1), G(2), M(1), X, I(1)}} with buffer_items 2 and 3: clear() is not one of the two events that lose lookups, the batches flushed after it (including the lookups that sat in the ring when it was called) are kept and counted; non-trivial = a batch was kept",
             lens[0]
         ),
         assumptions: all_std(),
@@ -2471,6 +2754,8 @@ pub fn c11_diff_pairs(tier: &str, flavor: Flavor) -> (Vec<Job>, Vec<String>) {
         // re-used keys with other TTLs and idle time
         vec![ins(1, 1, 0), ins(9, 1, 2500), Op::Adv { ms: 1500 }, Op::Get { k: 1 }, Op::Get { k: 9 }, Op::Adv { ms: 2000 }, Op::Get { k: 1 }, Op::Get { k: 9 }, Op::Ttl { k: 1 }],
         vec![Op::Get { k: 1 }, Op::Get { k: 9 }, Op::Pres { k: 1, c: 1 }, Op::Rem { k: 9 }],
+        // updates of a resident key (cost up, cost down, a TTL given and taken away), a remove
+        vec![ins(1, 1, 0), ins(1, 2, 0), Op::Pres { k: 1, c: 1 }, ins(9, 1, 0), ins(1, 1, 500), Op::Get { k: 1 }, ins(1, 1, 0), Op::Rem { k: 9 }, Op::Adv { ms: 2000 }, Op::Get { k: 1 }],
     ];
     for metrics in [true] {
         let cfg = Cfg { max_cost: 2, buffer_items: 1, metrics, ..Cfg::default() };
